@@ -54,6 +54,27 @@ func c01Tool(onRun func(string)) func(context.Context, *mcp.CallToolRequest) (*m
 	}
 }
 
+// a tool built with the library's typed handler: its answer is computed from the request's own (partly optional) arguments
+type c01TypedIn struct {
+	Nonce string `json:"nonce"`
+	Opt   string `json:"opt,omitempty"`
+	Days  int    `json:"days,omitempty"`
+	Delay int    `json:"delay_ms,omitempty"`
+}
+type c01TypedOut struct {
+	Echo string `json:"echo"`
+}
+
+func c01Typed(onRun func(string)) func(context.Context, *mcp.CallToolRequest) (*mcp.CallToolResult, error) {
+	return mcp.NewTypedToolHandler(func(ctx context.Context, req *mcp.CallToolRequest, in c01TypedIn) (c01TypedOut, error) {
+		onRun(in.Nonce)
+		if in.Delay > 0 {
+			time.Sleep(time.Duration(in.Delay) * time.Millisecond)
+		}
+		return c01TypedOut{Echo: fmt.Sprintf("T:%s|opt=%s;days=%d", in.Nonce, in.Opt, in.Days)}, nil
+	})
+}
+
 func c01Res(onRun func(string)) func(context.Context, *mcp.ReadResourceRequest) (mcp.ResourceContents, error) {
 	return func(ctx context.Context, req *mcp.ReadResourceRequest) (mcp.ResourceContents, error) {
 		n, _ := req.Params.Arguments["nonce"].(string)
@@ -94,6 +115,7 @@ func stdioServerMain(args []string) int {
 	}
 	srv := mcp.NewStdioServer("verif-stdio", "1.0", mcp.WithStdioServerLogger(silentLogger{}))
 	srv.RegisterTool(mcp.NewTool("echo", mcp.WithString("nonce"), mcp.WithNumber("delay_ms"), mcp.WithNumber("pad")), c01Tool(onRun))
+	srv.RegisterTool(mcp.NewTool("typed", mcp.WithInputStruct[c01TypedIn]()), c01Typed(onRun))
 	srv.RegisterResource(&mcp.Resource{URI: "r://echo", Name: "echo"}, c01Res(onRun))
 	srv.RegisterPrompt(&mcp.Prompt{Name: "echo"}, c01Prompt(onRun))
 	if err := srv.Start(); err != nil {
@@ -125,6 +147,7 @@ func c01NewWorld(mode string, onRun func(string)) (*c01World, error) {
 		}
 		srv := mcp.NewServer("verif", "1.0", opts...)
 		srv.RegisterTool(tool, c01Tool(onRun))
+		srv.RegisterTool(mcp.NewTool("typed", mcp.WithInputStruct[c01TypedIn]()), c01Typed(onRun))
 		srv.RegisterResource(&mcp.Resource{URI: "r://echo", Name: "echo"}, c01Res(onRun))
 		srv.RegisterPrompt(&mcp.Prompt{Name: "echo"}, c01Prompt(onRun))
 		w.ts = httptest.NewServer(srv.Handler())
@@ -132,6 +155,7 @@ func c01NewWorld(mode string, onRun func(string)) (*c01World, error) {
 	case "legacy":
 		srv := mcp.NewSSEServer("verif", "1.0", mcp.WithSSEServerLogger(silentLogger{}), mcp.WithKeepAlive(false))
 		srv.RegisterTool(tool, c01Tool(onRun))
+		srv.RegisterTool(mcp.NewTool("typed", mcp.WithInputStruct[c01TypedIn]()), c01Typed(onRun))
 		srv.RegisterResource(&mcp.Resource{URI: "r://echo", Name: "echo"}, c01Res(onRun))
 		srv.RegisterPrompt(&mcp.Prompt{Name: "echo"}, c01Prompt(onRun))
 		w.ts = httptest.NewServer(srv)
@@ -196,7 +220,37 @@ func c01Call(ctx context.Context, c c01Caller, kind int, nonce string, delay, pa
 		}
 		return "garbled:" + s
 	}
-	switch kind % 3 {
+	switch kind % 4 {
+	case 3:
+		// typed tool: optional arguments are sent by some calls and omitted by others
+		req := &mcp.CallToolRequest{}
+		req.Params.Name = "typed"
+		args := map[string]interface{}{"nonce": nonce, "delay_ms": delay}
+		want := "opt=;days=0"
+		if len(nonce)%2 == 0 {
+			args["opt"], args["days"] = "o-"+nonce, len(nonce)+pad%7
+			want = fmt.Sprintf("opt=o-%s;days=%d", nonce, len(nonce)+pad%7)
+		}
+		req.Params.Arguments = args
+		res, err := c.CallTool(ctx, req)
+		if err != nil {
+			return "", err
+		}
+		if len(res.Content) != 1 {
+			return fmt.Sprintf("garbled:%d content items", len(res.Content)), nil
+		}
+		tc, ok := res.Content[0].(mcp.TextContent)
+		if !ok {
+			return "garbled:content type", nil
+		}
+		var out c01TypedOut
+		if json.Unmarshal([]byte(tc.Text), &out) != nil {
+			return "garbled:" + tc.Text, nil
+		}
+		if i := strings.IndexByte(out.Echo, '|'); i < 0 || out.Echo[i+1:] != want {
+			return "garbled:computed from other arguments: " + out.Echo + " (sent " + want + ")", nil
+		}
+		return extract(out.Echo, "T:"), nil
 	case 0:
 		req := &mcp.CallToolRequest{}
 		req.Params.Name = "echo"
@@ -301,7 +355,7 @@ func c01Load(in c01LoadIn) (out c01LoadOut) {
 				if rnd.Intn(6) == 0 {
 					pad = []int{5000, 70000, 300000}[rnd.Intn(3)]
 				}
-				plans[key] = append(plans[key], plan{rnd.Intn(3), d, pad})
+				plans[key] = append(plans[key], plan{rnd.Intn(4), d, pad})
 			}
 		}
 	}
